@@ -478,7 +478,8 @@ func (ev *Evaluator) evalPath(p *jast.Path, in Value, env *Env) (Value, *Err) {
 	for i, step := range p.Steps {
 		var err *Err
 		if _, ok := step.(*jast.Array); ok && i == 0 {
-			output, err = ev.eval(step, output, env)
+			// evaluated once, against the context item itself
+			output, err = ev.eval(step, in, env)
 		} else {
 			output, err = ev.evalPathStep(step, output, env, i == last)
 		}
